@@ -72,12 +72,13 @@ type Scenario struct {
 	Realms []RealmCfg `json:"realms"`
 	Ops    []Op       `json:"ops"`
 	Tags   []string   `json:"tags,omitempty"` // shape templates that fired (generator bookkeeping)
-	// Template: only realm 0 is configured statically; the others come into
-	// being from Config.RealmTemplate (= the configuration of realm 1, which
-	// the generator makes equal for all) when their first session says HELLO.
+	// Template: only the realms below TplFrom are configured statically; the
+	// others come into being from Config.RealmTemplate (= the configuration
+	// the generator gives all realms) when their first session says HELLO.
 	// The model is the same either way: a realm that exists from the start and
 	// one created on first use are both init_realm.
 	Template bool `json:"template,omitempty"`
+	TplFrom  int  `json:"tpl_from,omitempty"` // with Template: realms with index >= TplFrom come from the template (0 = all of them)
 }
 
 // A symbolic reference inside a payload: Val{T:'r', K:<int kind>, S:"sid:<idx>" | "pub:<name>"}.
